@@ -1,1 +1,505 @@
 // Kani contract harnesses for /repo/arrow-string/src/predicate.rs (child module: sees private items via super::)
+use super::*;
+#[path = "/verif/kani/support/spec.rs"]
+mod spec;
+use spec::*;
+// Stub targets are named through `use` items of THIS crate: an absolute path `memchr::...` in #[kani::stub]
+// resolves to the copy of the memchr crate that std itself links, the stub is then reported as applied but
+// never takes effect (measured: cpuid inline asm still reached).
+use memchr::memchr as dep_memchr;
+use memchr::arch::x86_64::avx2::packedpair::Finder as Avx2PackedPair;
+use memchr::arch::x86_64::sse2::packedpair::Finder as Sse2PackedPair;
+
+// =============================================================================================
+// Stubs (assumed dependency contracts; every harness lists the ones it uses)
+//  * memchr3 (as imported by predicate.rs) -> naive_memchr3, memchr::memchr -> naive_memchr: index of the first
+//    byte equal to (one of) the needle byte(s), None if there is none (memchr's documented contract; the
+//    real ones reach runtime CPU-feature dispatch = cpuid inline asm, which Kani cannot execute).
+//  * memchr::arch::x86_64::{avx2,sse2}::packedpair::Finder::is_available -> false: memmem then takes its
+//    portable path (Rabin-Karp for haystacks < 16 bytes), which is executed for real.
+//    (Stubbing Finder::new / Finder::find directly is rejected by Kani 0.68: methods of a
+//    lifetime-generic impl cannot be matched by a free function.)
+//  * regex_like (this file) -> stub_regex_like: returns Err(sentinel). Regex strategies are NOT decided
+//    by these units; `Err` from like()/ilike() under this stub means "classified as Regex".
+// =============================================================================================
+fn naive_memchr3(a: u8, b: u8, c: u8, h: &[u8]) -> Option<usize> {
+    let mut i = 0;
+    while i < h.len() {
+        if h[i] == a || h[i] == b || h[i] == c { return Some(i); }
+        i += 1;
+    }
+    None
+}
+fn naive_memchr(a: u8, h: &[u8]) -> Option<usize> {
+    let mut i = 0;
+    while i < h.len() {
+        if h[i] == a { return Some(i); }
+        i += 1;
+    }
+    None
+}
+fn not_available() -> bool { false }
+fn stub_regex_like(_pattern: &str, _ci: bool) -> Result<Regex, ArrowError> { Err(ArrowError::DivideByZero) }
+
+// =============================================================================================
+// Model: strings are sequences of Unicode scalar values; LIKE semantics on `char`s.
+// =============================================================================================
+const MAXP: usize = 4; // pattern chars
+const MAXH: usize = 3; // haystack chars
+
+/// a symbolic scalar value: any ASCII char, or one 2-byte ('é'), 3-byte ('€'), 4-byte ('😀') scalar
+fn sym_char() -> char {
+    let k: u8 = kani::any();
+    kani::assume(k <= 0x82);
+    if k < 0x80 { k as char } else if k == 0x80 { 'é' } else if k == 0x81 { '€' } else { '😀' }
+}
+/// a symbolic scalar from the LIKE-relevant alphabet {'%','_','\\','a','b','é','€'}
+fn sym_like_char() -> char {
+    let k: u8 = kani::any();
+    kani::assume(k < 7);
+    ['%', '_', '\\', 'a', 'b', 'é', '€'][k as usize]
+}
+/// hand-written UTF-8 encoder (spec side), returns number of bytes written at buf[pos..]
+fn put(buf: &mut [u8], pos: usize, c: char) -> usize {
+    let u = c as u32;
+    if u < 0x80 { buf[pos] = u as u8; 1 }
+    else if u < 0x800 { buf[pos] = 0xC0 | (u >> 6) as u8; buf[pos + 1] = 0x80 | (u & 0x3F) as u8; 2 }
+    else if u < 0x10000 { buf[pos] = 0xE0 | (u >> 12) as u8; buf[pos + 1] = 0x80 | ((u >> 6) & 0x3F) as u8; buf[pos + 2] = 0x80 | (u & 0x3F) as u8; 3 }
+    else { buf[pos] = 0xF0 | (u >> 18) as u8; buf[pos + 1] = 0x80 | ((u >> 12) & 0x3F) as u8; buf[pos + 2] = 0x80 | ((u >> 6) & 0x3F) as u8; buf[pos + 3] = 0x80 | (u & 0x3F) as u8; 4 }
+}
+/// encode the first n chars of cs into buf; returns the byte length
+fn encode<const N: usize>(cs: &[char; N], n: usize, buf: &mut [u8]) -> usize {
+    let mut len = 0;
+    let mut i = 0;
+    while i < N { if i < n { len += put(buf, len, cs[i]); } i += 1; }
+    len
+}
+
+#[derive(Clone, Copy, PartialEq)]
+enum Tok { AnySeq, AnyOne, Lit(char) }
+
+/// LIKE tokens of a pattern given as chars: `%` any sequence (incl. empty, incl. newlines), `_` exactly
+/// one char, `\x` the literal x (also for x in {%,_,\}), a trailing lone `\` a literal backslash.
+fn tokens(p: &[char; MAXP], pn: usize) -> ([Tok; MAXP], usize) {
+    let mut t = [Tok::AnySeq; MAXP];
+    let mut tn = 0;
+    let mut i = 0;
+    while i < pn {
+        let c = p[i];
+        if c == '\\' {
+            if i + 1 < pn { t[tn] = Tok::Lit(p[i + 1]); i += 2; } else { t[tn] = Tok::Lit('\\'); i += 1; }
+        } else if c == '%' { t[tn] = Tok::AnySeq; i += 1; }
+        else if c == '_' { t[tn] = Tok::AnyOne; i += 1; }
+        else { t[tn] = Tok::Lit(c); i += 1; }
+        tn += 1;
+    }
+    (t, tn)
+}
+fn fold(c: char, ci: bool) -> char { if ci && c >= 'A' && c <= 'Z' { ((c as u8) + 32) as char } else { c } }
+
+/// Reference LIKE matcher on chars (exhaustive: m[i][j] <=> tokens[i..] matches h[j..]; equivalent to
+/// naive backtracking, written as a table so that all loops have constant bounds).
+/// `ci`: literals compare under ASCII case folding.
+fn like_match(p: &[char; MAXP], pn: usize, h: &[char; MAXH], hn: usize, ci: bool) -> bool {
+    let (t, tn) = tokens(p, pn);
+    let mut m = [[false; MAXH + 1]; MAXP + 1];
+    let mut ii = 0;
+    while ii <= MAXP {
+        let i = MAXP - ii;               // i from MAXP down to 0
+        if i <= tn {
+            let mut jj = 0;
+            while jj <= MAXH {
+                let j = MAXH - jj;       // j from MAXH down to 0
+                if j <= hn {
+                    m[i][j] = if i == tn { j == hn } else {
+                        match t[i] {
+                            Tok::AnySeq => m[i + 1][j] || (j < hn && m[i][j + 1]),
+                            Tok::AnyOne => j < hn && m[i + 1][j + 1],
+                            Tok::Lit(c) => j < hn && fold(h[j], ci) == fold(c, ci) && m[i + 1][j + 1],
+                        }
+                    };
+                }
+                jj += 1;
+            }
+        }
+        ii += 1;
+    }
+    m[0][0]
+}
+
+fn str_of(buf: &[u8], len: usize) -> &str { unsafe { std::str::from_utf8_unchecked(&buf[..len]) } }
+
+// ---------------------------------------------------------------------------------------------
+// byte kernels
+// ---------------------------------------------------------------------------------------------
+
+// Contract (C20): equals_kernel((a,b)) <=> a == b; equals_ignore_ascii_case_kernel((a,b)) <=> a and b are
+// equal after mapping b'A'..=b'Z' to b'a'..=b'z' (ASCII case folding; no other byte is folded). All 2^16 pairs.
+// @unit name=byte_kernels props=C20 kind=complete fns=equals_kernel,equals_ignore_ascii_case_kernel timeout=60
+#[kani::proof]
+fn byte_kernels() {
+    let (a, b): (u8, u8) = (kani::any(), kani::any());
+    let f = |x: u8| if x >= b'A' && x <= b'Z' { x + 32 } else { x };
+    assert!(equals_kernel((&a, &b)) == (a == b));
+    assert!(equals_ignore_ascii_case_kernel((&a, &b)) == (f(a) == f(b)));
+    kani::cover!(a != b && equals_ignore_ascii_case_kernel((&a, &b)));
+    kani::cover!(a == b'@' && b == b'`');        // differ by 0x20 but are not letters
+}
+
+// Contract (C20): equals_bytes(l, r, k) <=> same length and k holds at every position, for every pair of
+// byte slices of <= 6 bytes (symbolic lengths and contents), for both kernels.
+// @unit name=equals_bytes_def props=C20 kind=bounded bound=each_slice<=6_bytes fns=equals_bytes,equals_kernel,equals_ignore_ascii_case_kernel timeout=240
+#[kani::proof]
+#[kani::unwind(8)]
+fn equals_bytes_def() {
+    let (lb, rb): ([u8; 6], [u8; 6]) = (kani::any(), kani::any());
+    let (ln, rn): (usize, usize) = (kani::any(), kani::any());
+    kani::assume(ln <= 6 && rn <= 6);
+    let f = |x: u8| if x >= b'A' && x <= b'Z' { x + 32 } else { x };
+    let (mut same, mut same_ci) = (ln == rn, ln == rn);
+    let mut i = 0;
+    while i < 6 {
+        if i < ln && i < rn { if lb[i] != rb[i] { same = false; } if f(lb[i]) != f(rb[i]) { same_ci = false; } }
+        i += 1;
+    }
+    assert!(equals_bytes(&lb[..ln], &rb[..rn], equals_kernel) == same);
+    assert!(equals_bytes(&lb[..ln], &rb[..rn], equals_ignore_ascii_case_kernel) == same_ci);
+    kani::cover!(same && ln == 6);
+    kani::cover!(!same && same_ci && ln == 3);
+    kani::cover!(ln != rn);
+}
+
+// Contract (C20, starts_with / ends_with "return the result of the straightforward definition on Unicode
+// scalar values"): for every haystack of <= 3 scalars and needle of <= 3 scalars (each scalar any ASCII
+// char or a 2-, 3-, 4-byte scalar), both given as valid UTF-8:
+//   starts_with(h, n, equals_kernel) <=> the char sequence of n is a prefix of the char sequence of h
+//   ends_with  (h, n, equals_kernel) <=> ... a suffix ...
+// and with equals_ignore_ascii_case_kernel the same under ASCII case folding of both sides
+// (A-Z ~ a-z only; non-ASCII scalars compare exactly).
+// @unit name=starts_ends_with_chars props=C20 kind=bounded bound=haystack<=3_chars_needle<=3_chars_of_1..4_bytes fns=starts_with,ends_with,equals_kernel,equals_ignore_ascii_case_kernel timeout=900 mem=4 tier=thorough
+#[kani::proof]
+#[kani::unwind(14)]
+fn starts_ends_with_chars() {
+    let h: [char; 3] = [sym_char(), sym_char(), sym_char()];
+    let n: [char; 3] = [sym_char(), sym_char(), sym_char()];
+    let (hn, nn): (usize, usize) = (kani::any(), kani::any());
+    kani::assume(hn <= 3 && nn <= 3);
+    let (mut hb, mut nb) = ([0u8; 12], [0u8; 12]);
+    let hl = encode(&h, hn, &mut hb);
+    let nl = encode(&n, nn, &mut nb);
+    let (hs, ns) = (str_of(&hb, hl), str_of(&nb, nl));
+
+    let (mut pre, mut suf, mut pre_ci, mut suf_ci) = (nn <= hn, nn <= hn, nn <= hn, nn <= hn);
+    let mut i = 0;
+    while i < 3 {
+        if i < nn && nn <= hn {
+            if h[i] != n[i] { pre = false; }
+            if fold(h[i], true) != fold(n[i], true) { pre_ci = false; }
+            if h[hn - nn + i] != n[i] { suf = false; }
+            if fold(h[hn - nn + i], true) != fold(n[i], true) { suf_ci = false; }
+        }
+        i += 1;
+    }
+    assert!(starts_with(hs, ns, equals_kernel) == pre);
+    assert!(ends_with(hs, ns, equals_kernel) == suf);
+    assert!(starts_with(hs, ns, equals_ignore_ascii_case_kernel) == pre_ci);
+    assert!(ends_with(hs, ns, equals_ignore_ascii_case_kernel) == suf_ci);
+    kani::cover!(pre && nn == 2 && hl > 4);
+    kani::cover!(suf && !pre && nn == 2);
+    kani::cover!(pre_ci && !pre);
+    kani::cover!(nl > hl);
+    kani::cover!(nn == 0);
+}
+
+// Contract (C20): contains_like_pattern(p) <=> some byte of p is '%', '_' or '\\' (for valid UTF-8 this is
+// the same as "some char of p is one of the three": they are ASCII and never occur inside a multi-byte
+// sequence), for every p of <= 3 scalars.  Stubs: memchr3 -> naive_memchr3.
+// @unit name=contains_like_pattern_def props=C20 kind=bounded bound=pattern<=3_chars_of_1..4_bytes fns=contains_like_pattern timeout=240
+#[kani::proof]
+#[kani::unwind(14)]
+#[kani::stub(memchr3, naive_memchr3)]
+fn contains_like_pattern_def() {
+    let p: [char; 3] = [sym_char(), sym_char(), sym_char()];
+    let pn: usize = kani::any();
+    kani::assume(pn <= 3);
+    let mut pb = [0u8; 12];
+    let pl = encode(&p, pn, &mut pb);
+    let mut want = false;
+    let mut i = 0;
+    while i < 3 { if i < pn && (p[i] == '%' || p[i] == '_' || p[i] == '\\') { want = true; } i += 1; }
+    assert!(contains_like_pattern(str_of(&pb, pl)) == want);
+    kani::cover!(want && pl > 3);
+    kani::cover!(!want && pl > 3);
+}
+
+// ---------------------------------------------------------------------------------------------
+// LIKE / ILIKE classification + evaluation of the non-regex strategies
+// ---------------------------------------------------------------------------------------------
+
+/// structural soundness of a non-regex classification w.r.t. the pattern chars: returns the literal part
+/// (start, len in chars) the strategy must carry, or None if this shape may not be chosen.
+fn clean(p: &[char; MAXP], from: usize, to: usize) -> bool {
+    let mut ok = true;
+    let mut i = 0;
+    while i < MAXP { if i >= from && i < to && (p[i] == '%' || p[i] == '_' || p[i] == '\\') { ok = false; } i += 1; }
+    ok
+}
+
+// Contract (C20, LIKE with `%`, `_` and backslash escapes on Unicode scalar values): for EVERY pattern of
+// <= 4 scalars over {'%','_','\\','a','b','é'(2 bytes),'€'(3 bytes)} and EVERY haystack of <= 3 scalars
+// over the same alphabet: if Predicate::like(pattern) picks a non-Regex strategy then
+//   (a) evaluate(haystack) == reference LIKE matcher on chars (% = any sequence incl. empty, _ = exactly
+//       one char, \x = literal x), and
+//   (b) the literal carried by Eq/StartsWith/EndsWith/Contains is exactly the pattern minus its leading
+//       and/or trailing unescaped `%`, and contains no '%', '_' or '\\' (so no wildcard or escape is ever
+//       treated as a literal, and `_` can never match a byte instead of a char).
+// Patterns classified Regex (Err under the stub) are undecided here.
+// Stubs: memchr3/memchr -> naive; avx2/sse2 is_available -> false (portable memmem runs for real);
+//        regex_like -> Err sentinel; alloc::fmt::format.
+// NOT CONFIRMED under load (never seen to finish on the shared machine, load 40-75): keep tier=thorough until re-measured
+// @unit name=like_nonregex_matches_reference props=C20 kind=bounded bound=pattern<=4_chars_haystack<=3_chars_alphabet_of_7_incl_2-_and_3-byte_scalars fns=Predicate::like,Predicate::evaluate,Predicate::contains,contains_like_pattern,starts_with,ends_with timeout=900 mem=6 tier=thorough
+#[kani::proof]
+#[kani::unwind(14)]
+#[kani::stub(memchr3, naive_memchr3)]
+#[kani::stub(dep_memchr, naive_memchr)]
+#[kani::stub(Avx2PackedPair::is_available, not_available)]
+#[kani::stub(Sse2PackedPair::is_available, not_available)]
+#[kani::stub(regex_like, stub_regex_like)]
+#[kani::stub(alloc::fmt::format, stub_format)]
+fn like_nonregex_matches_reference() {
+    let p: [char; MAXP] = [sym_like_char(), sym_like_char(), sym_like_char(), sym_like_char()];
+    let h: [char; MAXH] = [sym_like_char(), sym_like_char(), sym_like_char()];
+    let (pn, hn): (usize, usize) = (kani::any(), kani::any());
+    kani::assume(pn <= MAXP && hn <= MAXH);
+    let (mut pb, mut hb) = ([0u8; 12], [0u8; 9]);
+    let pl = encode(&p, pn, &mut pb);
+    let hl = encode(&h, hn, &mut hb);
+    let (ps, hs) = (str_of(&pb, pl), str_of(&hb, hl));
+
+    // `%lit%` shapes (Contains) are decided by the like_contains_* units below (concrete byte lengths:
+    // memmem's searcher construction with a symbolic needle length did not finish in 600 s).
+    let contains_shape = pn >= 2 && p[0] == '%' && p[pn - 1] == '%' && clean(&p, 1, pn - 1);
+    kani::assume(!contains_shape);
+    let r = Predicate::like(ps);
+    if let Ok(pred) = &r {
+        // (a) semantics
+        let want = like_match(&p, pn, &h, hn, false);
+        assert!(pred.evaluate(hs) == want);
+        // (b) structure: literal == the expected sub-slice of the pattern bytes and it is clean
+        let first_pct = pn >= 1 && p[0] == '%';
+        let last_pct = pn >= 1 && p[pn - 1] == '%';
+        match pred {
+            Predicate::Eq(v) => { assert!(clean(&p, 0, pn)); assert!(v.as_bytes() == &pb[..pl]); kani::cover!(pn == 3 && want); }
+            Predicate::StartsWith(v) => { assert!(last_pct && clean(&p, 0, pn - 1)); assert!(v.as_bytes() == &pb[..pl - 1]); kani::cover!(pn == 3 && want && hn == 3); }
+            Predicate::EndsWith(v) => { assert!(first_pct && clean(&p, 1, pn)); assert!(v.as_bytes() == &pb[1..pl]); kani::cover!(pn == 3 && want && hn == 3); }
+            _ => assert!(false),     // like() never yields a case-insensitive strategy; Regex is Err under the stub
+        }
+    } else {
+        kani::cover!(pn == 3 && p[1] == '%');      // "a%b"-like patterns go to Regex
+        kani::cover!(pn == 2 && p[0] == '\\');     // escapes go to Regex
+    }
+    std::mem::forget(r);
+}
+
+// Contract (C20, ILIKE; "only when is_ascii and the pattern is ASCII"): for EVERY pattern of <= 4 ASCII
+// chars (all 128 values each), every is_ascii flag and EVERY ASCII haystack of <= 3 chars: if
+// Predicate::ilike(pattern, is_ascii) picks a non-Regex strategy then is_ascii holds, the strategy is one
+// of the three ASCII case-insensitive ones, evaluate(haystack) == reference LIKE matcher under ASCII case
+// folding, and the carried literal is the pattern minus one leading or trailing unescaped `%`, free of
+// '%', '_', '\\'. A pattern containing a non-ASCII scalar is always classified Regex (second harness).
+// Precondition from the call site (like.rs::op_scalar): is_ascii == true only if every haystack is ASCII.
+// Stubs: memchr3 -> naive_memchr3; regex_like -> Err sentinel; alloc::fmt::format.
+// NOT CONFIRMED under load (never seen to finish on the shared machine, load 40-75): keep tier=thorough until re-measured
+// @unit name=ilike_nonregex_matches_reference props=C20 kind=bounded bound=pattern<=4_ascii_chars_haystack<=3_ascii_chars fns=Predicate::ilike,Predicate::evaluate,contains_like_pattern,starts_with,ends_with timeout=900 mem=6 tier=thorough
+#[kani::proof]
+#[kani::unwind(14)]
+#[kani::stub(memchr3, naive_memchr3)]
+#[kani::stub(regex_like, stub_regex_like)]
+#[kani::stub(alloc::fmt::format, stub_format)]
+fn ilike_nonregex_matches_reference() {
+    let pb: [u8; MAXP] = kani::any();
+    let hb: [u8; MAXH] = kani::any();
+    let (pn, hn): (usize, usize) = (kani::any(), kani::any());
+    kani::assume(pn <= MAXP && hn <= MAXH);
+    let mut p = ['a'; MAXP];
+    let mut h = ['a'; MAXH];
+    let mut i = 0;
+    while i < MAXP { kani::assume(pb[i] < 0x80); p[i] = pb[i] as char; i += 1; }
+    let mut i = 0;
+    while i < MAXH { kani::assume(hb[i] < 0x80); h[i] = hb[i] as char; i += 1; }
+    let is_ascii: bool = kani::any();
+    let (ps, hs) = (str_of(&pb, pn), str_of(&hb, hn));
+
+    let r = Predicate::ilike(ps, is_ascii);
+    if let Ok(pred) = &r {
+        assert!(is_ascii);
+        let want = like_match(&p, pn, &h, hn, true);
+        assert!(pred.evaluate(hs) == want);
+        match pred {
+            Predicate::IEqAscii(v) => { assert!(clean(&p, 0, pn)); assert!(v.as_bytes() == &pb[..pn]); kani::cover!(pn == 3 && want && pb[0] != hb[0]); }
+            Predicate::IStartsWithAscii(v) => { assert!(pn >= 1 && p[pn - 1] == '%' && clean(&p, 0, pn - 1)); assert!(v.as_bytes() == &pb[..pn - 1]); kani::cover!(pn == 3 && want && hn == 3 && pb[0] != hb[0]); }
+            Predicate::IEndsWithAscii(v) => { assert!(pn >= 1 && p[0] == '%' && clean(&p, 1, pn)); assert!(v.as_bytes() == &pb[1..pn]); kani::cover!(pn == 3 && want && hn == 3 && pb[2] != hb[2]); }
+            _ => assert!(false),
+        }
+    } else {
+        kani::cover!(!is_ascii);
+        kani::cover!(is_ascii && pn == 3 && pb[0] == b'%' && pb[2] == b'%');   // %x% has no ASCII-ci strategy -> Regex
+    }
+    std::mem::forget(r);
+}
+
+// Contract (C20, ILIKE): a pattern containing a non-ASCII scalar is never given an ASCII-case-insensitive
+// byte strategy (Unicode case folding is the regex engine's job): ilike(pattern, any flag) is Regex.
+// Stubs: memchr3 -> naive_memchr3; regex_like -> Err sentinel; alloc::fmt::format.
+// @unit name=ilike_non_ascii_pattern_is_regex props=C20 kind=bounded bound=pattern<=3_chars_of_1..4_bytes fns=Predicate::ilike timeout=300 mem=3
+#[kani::proof]
+#[kani::unwind(14)]
+#[kani::stub(memchr3, naive_memchr3)]
+#[kani::stub(regex_like, stub_regex_like)]
+#[kani::stub(alloc::fmt::format, stub_format)]
+fn ilike_non_ascii_pattern_is_regex() {
+    let p: [char; 3] = [sym_char(), sym_char(), sym_char()];
+    let pn: usize = kani::any();
+    kani::assume(pn <= 3);
+    let mut pb = [0u8; 12];
+    let pl = encode(&p, pn, &mut pb);
+    let is_ascii: bool = kani::any();
+    let mut non_ascii = false;
+    let mut i = 0;
+    while i < 3 { if i < pn && (p[i] as u32) >= 0x80 { non_ascii = true; } i += 1; }
+    let r = Predicate::ilike(str_of(&pb, pl), is_ascii);
+    if non_ascii || !is_ascii { assert!(r.is_err()); }
+    kani::cover!(non_ascii && is_ascii);
+    kani::cover!(r.is_ok());
+    std::mem::forget(r);
+}
+
+/// a symbolic Unicode scalar value whose UTF-8 encoding has exactly `w` bytes (full range of that class)
+fn sym_char_w(w: u8) -> char {
+    let u: u32 = kani::any();
+    match w {
+        1 => kani::assume(u < 0x80),
+        2 => kani::assume(u >= 0x80 && u < 0x800),
+        3 => kani::assume(u >= 0x800 && u < 0x10000 && !(u >= 0xD800 && u < 0xE000)),
+        _ => kani::assume(u >= 0x10000 && u < 0x110000),
+    }
+    char::from_u32(u).unwrap()
+}
+/// encode chars with CONCRETE widths w (0 = absent) at concrete positions; returns (chars, count, byte len)
+fn mk_concrete<const N: usize>(w: [u8; N], buf: &mut [u8], start: usize, no_special: bool) -> ([char; N], usize, usize) {
+    let mut cs = ['a'; N];
+    let mut n = 0;
+    let mut pos = start;
+    let mut i = 0;
+    while i < N {
+        if w[i] != 0 {
+            let c = sym_char_w(w[i]);
+            if no_special { kani::assume(c != '%' && c != '_' && c != '\\'); }
+            let k = put(buf, pos, c);
+            assert!(k == w[i] as usize);
+            cs[n] = c;
+            n += 1;
+            pos += w[i] as usize;      // concrete advance
+        }
+        i += 1;
+    }
+    (cs, n, pos)
+}
+
+// Contract (C20, LIKE `%lit%` and `contains`): for the pattern '%' ++ lit ++ '%' where lit consists of
+// scalars of the given CONCRETE byte widths (any scalar of that width except '%', '_', '\\') and every
+// haystack of 3 scalars of the given concrete widths (any scalars):
+//   Predicate::like(pattern) is Contains carrying exactly lit's bytes as the needle, and
+//   evaluate(haystack) == reference LIKE matcher on chars == "lit occurs as a contiguous char subsequence".
+// Byte lengths are concrete because memmem's searcher construction with a symbolic needle length did not
+// finish (600 s).  memmem's portable path (Rabin-Karp, haystack < 16 bytes) is executed for real.
+// Stubs: memchr3/memchr -> naive; avx2/sse2 is_available -> false; regex_like -> Err sentinel; alloc::fmt::format.
+macro_rules! like_contains {
+    ($name:ident, $lit:expr, $hay:expr) => {
+        #[kani::proof]
+        #[kani::unwind(14)]
+        #[kani::stub(memchr3, naive_memchr3)]
+        #[kani::stub(dep_memchr, naive_memchr)]
+        #[kani::stub(Avx2PackedPair::is_available, not_available)]
+        #[kani::stub(Sse2PackedPair::is_available, not_available)]
+        #[kani::stub(regex_like, stub_regex_like)]
+        #[kani::stub(alloc::fmt::format, stub_format)]
+        fn $name() {
+            let (mut pb, mut hb) = ([0u8; 12], [0u8; 12]);
+            pb[0] = b'%';
+            let (lit, ln, lend) = mk_concrete::<2>($lit, &mut pb, 1, true);
+            pb[lend] = b'%';
+            let pl = lend + 1;
+            let (h, hn, hl) = mk_concrete::<3>($hay, &mut hb, 0, false);
+            let mut p = ['%'; MAXP];
+            let mut i = 0;
+            while i < 2 { if i < ln { p[1 + i] = lit[i]; } i += 1; }
+            let pn = ln + 2;                       // p = ['%', lit.., '%']
+            let r = Predicate::like(str_of(&pb, pl));
+            assert!(r.is_ok());
+            if let Ok(pred) = &r {
+                match pred {
+                    Predicate::Contains(f) => assert!(f.needle() == &pb[1..lend]),
+                    _ => assert!(false),
+                }
+                let got = pred.evaluate(str_of(&hb, hl));
+                assert!(got == like_match(&p, pn, &h, hn, false));
+                let mut occurs = false;
+                let mut s = 0;
+                while s < 4 {
+                    if s + ln <= hn {
+                        let mut eq = true;
+                        let mut j = 0;
+                        while j < 2 { if j < ln && h[s + j] != lit[j] { eq = false; } j += 1; }
+                        if eq { occurs = true; }
+                    }
+                    s += 1;
+                }
+                assert!(got == occurs);
+                kani::cover!(got);
+                kani::cover!(!got || ln == 0);
+            }
+            std::mem::forget(r);
+        }
+    };
+}
+// NOT CONFIRMED under load (never seen to finish on the shared machine, load 40-75): keep tier=thorough until re-measured
+// @unit name=like_contains_empty props=C20 kind=bounded bound=pattern_%%_haystack_widths(1,2,1) fns=Predicate::like,Predicate::contains,Predicate::evaluate timeout=900 mem=4 tier=thorough
+like_contains!(like_contains_empty, [0, 0], [1, 2, 1]);
+// NOT CONFIRMED under load (never seen to finish on the shared machine, load 40-75): keep tier=thorough until re-measured
+// @unit name=like_contains_w1 props=C20 kind=bounded bound=literal_widths(1)_haystack_widths(1,1,2) fns=Predicate::like,Predicate::contains,Predicate::evaluate timeout=900 mem=4 tier=thorough
+like_contains!(like_contains_w1, [1, 0], [1, 1, 2]);
+// NOT CONFIRMED under load (never seen to finish on the shared machine, load 40-75): keep tier=thorough until re-measured
+// @unit name=like_contains_w2 props=C20 kind=bounded bound=literal_widths(2)_haystack_widths(1,2,2) fns=Predicate::like,Predicate::contains,Predicate::evaluate timeout=900 mem=4 tier=thorough
+like_contains!(like_contains_w2, [2, 0], [1, 2, 2]);
+// NOT CONFIRMED under load (never seen to finish on the shared machine, load 40-75): keep tier=thorough until re-measured
+// @unit name=like_contains_w11 props=C20 kind=bounded bound=literal_widths(1,1)_haystack_widths(1,1,1) fns=Predicate::like,Predicate::contains,Predicate::evaluate timeout=900 mem=4 tier=thorough
+like_contains!(like_contains_w11, [1, 1], [1, 1, 1]);
+// NOT CONFIRMED under load (never seen to finish on the shared machine, load 40-75): keep tier=thorough until re-measured
+// @unit name=like_contains_w3 props=C20 kind=bounded bound=literal_widths(3)_haystack_widths(3,1,3) fns=Predicate::like,Predicate::contains,Predicate::evaluate timeout=900 mem=4 tier=thorough
+like_contains!(like_contains_w3, [3, 0], [3, 1, 3]);
+
+// ---- scratch (bisecting symex cost; no @unit) ----
+#[kani::proof]
+#[kani::unwind(14)]
+#[kani::stub(memchr3, naive_memchr3)]
+#[kani::stub(regex_like, stub_regex_like)]
+#[kani::stub(alloc::fmt::format, stub_format)]
+fn exp_like_concrete() {
+    let r = Predicate::like("a%");
+    if let Ok(p) = &r { assert!(p.evaluate("abc")); }
+    std::mem::forget(r);
+}
+#[kani::proof]
+#[kani::unwind(14)]
+#[kani::stub(memchr3, naive_memchr3)]
+#[kani::stub(regex_like, stub_regex_like)]
+#[kani::stub(alloc::fmt::format, stub_format)]
+fn exp_like_sym2() {
+    let p: [char; 2] = [sym_like_char(), sym_like_char()];
+    let mut pb = [0u8; 6];
+    let pl = encode(&p, 2, &mut pb);
+    let r = Predicate::like(str_of(&pb, pl));
+    kani::cover!(r.is_ok());
+    std::mem::forget(r);
+}
